@@ -78,6 +78,8 @@ func (f *FakeTicker) Stopped() bool     { return false }
 func (f *FakeTicker) Fire() bool        { return false }
 func (f *FakeTicker) FireWait(int) bool { return false }
 func (f *FakeTicker) Pending() bool     { return false }
+func (f *FakeTicker) Armed() bool       { return false }
+func (f *FakeTicker) IsOneShot() bool   { return false }
 
 type ParkToken struct {
 	Step int64
